@@ -704,14 +704,26 @@ def rule_schema_binary(m):
                     why = 'swapBytes is not applied to the value'
                 else:
                     okflag = False
+                    other = None
+                    probe = IO + '_isSystemBigEndian'
                     for dep in f.region(swaps[0]['i']):
                         t = tt.t(f.branch_atom(dep[0]))
                         for (at, pol) in _implied(t, dep[1] == 0):
                             at = strip_conv_call(at)
-                            if at[0] == 'global' and at[1] == IO + 'SYSTEM_IS_BIG_ENDIAN' and pol:
+                            if at[0] == 'global' and pol:
+                                gv = [v for v in f.unit.vars if v['tname'] == at[1]]
+                                if gv and gv[0].get('constq') and gv[0].get('initcallee') == probe:
+                                    okflag = True
+                            if at[0] == 'call' and pol and at[1] == probe:
                                 okflag = True
-                    if not okflag:
-                        why = 'the byte swap is not controlled by SYSTEM_IS_BIG_ENDIAN'
+                            elif at[0] == 'call' and pol and at[1].startswith(IO) and not at[2]:
+                                other = at[1]
+                    if not okflag and other:
+                        why = 'expected the byte swap to be controlled by the endianness probe or by a constant initialised from ' \
+                              'it (found a call of %s)' % other.replace(NS, '')
+                    elif not okflag:
+                        why = 'the byte swap is not controlled by the endianness probe (a const flag initialised from ' \
+                              '_isSystemBigEndian(), or the call itself)'
                     elif method == 'write' and not f.node_dominates(swaps[0]['i'], xfers[0]['i']) and \
                             not f.can_reach_forward(swaps[0]['i'], xfers[0]['i']):
                         why = 'the swap does not precede the write'
